@@ -161,6 +161,19 @@ fn main() {
       }
       println!("accepted {ok} rejected {rej}; reference ends: {:?}", ends);
     }
+    "emit" => {
+      // dev: emit <file.sam> : print the TypeScript emitted for a single-module program M0
+      let text = std::fs::read_to_string(&args[1]).unwrap();
+      match sv::model::exec::compile(&[(vec!["M0".to_string()], text)], &["M0".to_string()]) {
+        sv::model::exec::CompileOutcome::Ok(c) => {
+          let ts = c.ts_code;
+          let start = ts.find("function _M0").unwrap_or(0);
+          println!("{}", &ts[start..]);
+        }
+        sv::model::exec::CompileOutcome::Rejected(m) => println!("rejected: {m}"),
+        sv::model::exec::CompileOutcome::Panicked(e) => println!("panicked: {:?}", e),
+      }
+    }
     "list" => {
       for p in sv::props::all() {
         println!("{}", p.id());
